@@ -282,13 +282,14 @@ def verify_unit(repo, unit_dir, workdir, canary=True, rlimit=None):
                         if f['fn'] in relax:
                             f['relaxed'] = True
                     keep = [f for f in pr2['failures'] if f['fn'] in relax]
-                    if keep and len(keep) == len(pr2['failures']):
+                    if keep:
                         out['relaxed_fns'] = relax
                         out['undecided'] = [u for u in out['undecided'] if u not in pr['undecided']]
                         out['undecided_original'] = pr['undecided']
                         pr = pr2
                         g = g2
-                        out['failures'] = keep
+                        # failures outside the relaxed functions are ordinary failures of this run (e.g. open known findings)
+                        out['failures'] = pr2['failures']
                         out['fns'] = g2.fns
             except (extract.Undecided, extract.L.LexError):
                 pass
